@@ -89,9 +89,14 @@ const (
 	// until the Write in progress has returned and a later Write has failed;
 	// only then are the queued data drained.
 	vfC16BackCloseUnread
+	// vfC16CloseStreaming: the server answers EVERY request with a non-empty
+	// body for as long as it is asked (a download in progress) and the
+	// application keeps draining Read before, during and after Close (as the
+	// other half of a copy loop does).
+	vfC16CloseStreaming
 )
 
-var vfC16ModeNames = []string{"graceful", "inflight", "concurrent-write", "at-start", "backpressure-resume", "backpressure-close", "backpressure-close-unread"}
+var vfC16ModeNames = []string{"graceful", "inflight", "concurrent-write", "at-start", "backpressure-resume", "backpressure-close", "backpressure-close-unread", "close-while-server-streams"}
 
 type vfC16Scn struct {
 	Idx          int
@@ -110,15 +115,18 @@ type vfC16Scn struct {
 	Salt         uint32
 	UpSalt       uint32
 	DownSalt     uint32
-	Ordered      bool // -race build: Close is ordered before the write it would otherwise overlap
-	Forced       bool // -race build turned a blocked-writer scenario into a NoBlock one
-	NoBlock      bool // back-pressure modes: so few writes that only the worker is parked, never the writer
+	Ordered      bool          // -race build: Close is ordered before the write it would otherwise overlap
+	Forced       bool          // -race build turned a blocked-writer scenario into a NoBlock one
+	StreamReqs   int           // close-while-server-streams: Close after this many data answers in a row ...
+	StreamFor    time.Duration // ... plus this long
+	Tail         refmeek.Resp  // close-while-server-streams: the answer to every request beyond the plan
+	NoBlock      bool          // back-pressure modes: so few writes that only the worker is parked, never the writer
 }
 
 func (s *vfC16Scn) String() string {
 	var b strings.Builder
-	fmt.Fprintf(&b, "mode=%s url=%s front=%q closeAt=%d jitter=%s idleTail=%s park=%s ordered=%v noBlock=%v rdSizes=%v rdPause=%s/every %d upSalt=%08x downSalt=%08x\n",
-		vfC16ModeNames[s.Mode], s.URL, s.Front, s.CloseAt, s.Jitter, s.IdleTail, s.Park, s.Ordered, s.NoBlock, s.RdSizes, s.RdPause, s.RdPauseEvery, s.UpSalt, s.DownSalt)
+	fmt.Fprintf(&b, "mode=%s url=%s front=%q closeAt=%d jitter=%s idleTail=%s park=%s streamReqs=%d+%s tail=%s ordered=%v noBlock=%v rdSizes=%v rdPause=%s/every %d upSalt=%08x downSalt=%08x\n",
+		vfC16ModeNames[s.Mode], s.URL, s.Front, s.CloseAt, s.Jitter, s.IdleTail, s.Park, s.StreamReqs, s.StreamFor, s.Tail, s.Ordered, s.NoBlock, s.RdSizes, s.RdPause, s.RdPauseEvery, s.UpSalt, s.DownSalt)
 	b.WriteString("  writes(size@delay[+sync]):")
 	for _, w := range s.Writes {
 		fmt.Fprintf(&b, " %d@%s", w.Size, w.Delay)
@@ -232,18 +240,20 @@ func vfC16GenScn(rt *rapid.T) *vfC16Scn {
 		s.Front = rapid.SampledFrom([]string{"front.example.org", "cdn.example.org:8000"}).Draw(rt, "frontHost")
 	}
 	switch k := vfC16Pct(rt, "mode"); {
-	case k < 36:
+	case k < 34:
 		s.Mode = vfC16Graceful
-	case k < 55:
+	case k < 52:
 		s.Mode = vfC16InFlight
-	case k < 74:
+	case k < 70:
 		s.Mode = vfC16Concurrent
-	case k < 78:
+	case k < 74:
 		s.Mode = vfC16AtStart
-	case k < 86:
+	case k < 81:
 		s.Mode = vfC16BackResume
-	case k < 93:
+	case k < 87:
 		s.Mode = vfC16BackClose
+	case k < 93:
+		s.Mode = vfC16CloseStreaming
 	default:
 		s.Mode = vfC16BackCloseUnread
 		s.NoBlock = vfC16Pct(rt, "noBlock") < 30
@@ -371,6 +381,32 @@ func vfC16GenScn(rt *rapid.T) *vfC16Scn {
 	}
 
 	switch s.Mode {
+	case vfC16CloseStreaming:
+		// every answer non-empty, without end; the reader must keep up with the
+		// worker (big buffers, no pauses) so that the read queue never fills
+		if len(s.Plan) > 3 {
+			s.Plan = s.Plan[:3]
+		}
+		for i := range s.Plan {
+			if s.Plan[i].Size == 0 {
+				s.Plan[i].Size = rapid.IntRange(1, 3000).Draw(rt, "streamFill")
+			}
+		}
+		if len(s.Writes) == 0 {
+			// the first request must not wait for the 100 ms poll timer
+			s.Writes = append(s.Writes, vfC16W{Size: rapid.IntRange(1, 2000).Draw(rt, "streamFirstWrite")})
+		}
+		s.Tail = refmeek.Resp{Size: rapid.IntRange(1, 1500).Draw(rt, "streamTail")}
+		if vfC16Pct(rt, "streamChunked") < 20 {
+			s.Tail.Mode = refmeek.ModeChunked
+		}
+		s.StreamReqs = rapid.IntRange(20, 150).Draw(rt, "streamReqs")
+		s.StreamFor = time.Duration(rapid.IntRange(0, 5000).Draw(rt, "streamUs")) * time.Microsecond
+		s.RdSizes = []int{rapid.SampledFrom([]int{4096, 16384, 65536, 100000}).Draw(rt, "streamRd")}
+		s.RdPauseEvery, s.RdPause = 0, 0
+		for i := range s.Writes {
+			s.Writes[i].Sync = false
+		}
 	case vfC16Graceful:
 		if vfC16Pct(rt, "tail") < 45 {
 			s.IdleTail = time.Duration(rapid.IntRange(110, 420).Draw(rt, "tailMs")) * time.Millisecond
@@ -447,6 +483,8 @@ type vfC16Run struct {
 	postWriteErr string
 	postReadErr  string
 	lateBase     int
+	streamed     int // close-while-server-streams: requests during the download phase before Close
+	reqsAtClose  int // requests that had arrived when Close returned
 	sessionID    string
 	classes      []string
 	nontrivial   bool
@@ -722,6 +760,7 @@ func (r *vfC16Run) doClose() {
 	var err error
 	ok := r.bounded("Close", func() { err = r.conn.Close() })
 	r.closeRetT = r.now()
+	r.reqsAtClose = r.srv.Count()
 	if !ok {
 		r.fail("c16-close-wedged", "Close did not return within %s", vfC16Bound())
 	} else {
@@ -736,6 +775,9 @@ func (r *vfC16Run) run() {
 	scn := r.scn
 	r.srv = refmeek.New(scn.Plan, scn.DownSalt)
 	r.srv.SetProbe(func() int64 { return r.attempted.Load() })
+	if scn.Mode == vfC16CloseStreaming {
+		r.srv.SetTail(scn.Tail)
+	}
 	r.resume, r.closeCue, r.closedCh = make(chan struct{}), make(chan struct{}), make(chan struct{})
 	r.readerDone, r.writerDone = make(chan struct{}), make(chan struct{})
 
@@ -782,6 +824,16 @@ func (r *vfC16Run) run() {
 			}
 		case vfC16InFlight:
 			r.waitWriter("before Close")
+		case vfC16CloseStreaming:
+			if r.waitWriter("before Close") {
+				n0, t0 := r.srv.Count(), time.Now()
+				for r.srv.Count()-n0 < scn.StreamReqs && time.Since(t0) < 2*time.Second && !r.failed() {
+					time.Sleep(200 * time.Microsecond)
+				}
+				time.Sleep(scn.StreamFor)
+				r.streamed = r.srv.Count() - n0
+				r.event("download ran for %s: %d requests, all answered with data; Read has returned %d of %d bytes", time.Since(t0), r.streamed, r.got.Load(), r.srv.Sent())
+			}
 		case vfC16Concurrent:
 			select {
 			case <-r.closeCue:
@@ -855,12 +907,27 @@ func (r *vfC16Run) run() {
 
 	// Read fails once the received data has been drained; it does not block
 	// forever.  (The reader goroutine checks every byte it still gets.)
-	select {
-	case <-r.readerDone:
-	case <-time.After(vfC16Bound()):
-		r.fail("c16-read-after-close-wedged", "Read was still blocked %s after Close had returned (bytes returned so far %d, answered by the server %d)",
-			vfC16Bound(), r.got.Load(), r.srv.Sent())
-		return
+	{
+		deadline := time.After(vfC16Bound())
+		tick := time.NewTicker(2 * time.Millisecond)
+	waitReader:
+		for {
+			select {
+			case <-r.readerDone:
+				break waitReader
+			case <-tick.C:
+				if r.tooManyAfterClose() {
+					tick.Stop()
+					return
+				}
+			case <-deadline:
+				tick.Stop()
+				r.fail("c16-read-after-close-wedged", "Read was still blocked %s after Close had returned (bytes returned so far %d, answered by the server %d)",
+					vfC16Bound(), r.got.Load(), r.srv.Sent())
+				return
+			}
+		}
+		tick.Stop()
 	}
 	if r.failed() {
 		return
@@ -893,6 +960,9 @@ func (r *vfC16Run) run() {
 				r.event("%d more request(s) after Close", c-base)
 				quiet, base = 0, c
 			}
+			if r.tooManyAfterClose() {
+				return
+			}
 			if r.now()-r.closeRetT > vfC16Bound() && quiet < 2 {
 				r.fail("c16-polling-continues", "requests keep arriving %s after Close returned (%d so far)", r.now()-r.closeRetT, c)
 				return
@@ -901,6 +971,25 @@ func (r *vfC16Run) run() {
 		r.lateBase = base
 	}
 	r.analyse()
+}
+
+// vfC16MaxAfterClose bounds the number of requests that may arrive after Close
+// has returned.  The worker looks at the close channel at least once per
+// request in a select whose other ready alternatives are chosen with equal
+// probability, so the number of further requests of a conforming client is
+// geometric with p >= 1/2 (measured: at most a handful); 200 is out of reach
+// for it (2^-200) and is reached within tens of milliseconds by a client that
+// keeps polling at full speed.
+const vfC16MaxAfterClose = 200
+
+func (r *vfC16Run) tooManyAfterClose() bool {
+	n := r.srv.Count() - r.reqsAtClose
+	if n <= vfC16MaxAfterClose {
+		return false
+	}
+	r.fail("c16-polling-continues", "%d requests have arrived in the %s since Close returned (bound %d) and they keep coming; Read has returned %d bytes since Close was called and has not failed",
+		n, r.now()-r.closeRetT, vfC16MaxAfterClose, r.got.Load()-r.gotAtClose)
+	return true
 }
 
 func (r *vfC16Run) writeBusy() time.Duration {
@@ -1131,6 +1220,12 @@ func (r *vfC16Run) analyse() {
 	if len(r.srv.Dials()) > 1 {
 		cls["redial"] = true
 	}
+	if scn.Mode == vfC16CloseStreaming && r.streamed >= 20 {
+		cls["close-during-download(>=20 data answers in a row, reader keeping up)"] = true
+	}
+	if n := len(reqs) - r.reqsAtClose; n > 0 {
+		cls[fmt.Sprintf("requests-after-close-returned:%s", vfC16Bucket(n))] = true
+	}
 	if scn.Front != "" && len(reqs) > 0 {
 		// not an oracle (the property does not mention fronting): recorded so
 		// that the evidence shows the front argument was effective
@@ -1269,7 +1364,8 @@ func vfC16Property(t *testing.T, unit string) {
 		"(write sizes 1..3*65536 incl. 65535/65536/65537, bursts, oversized write followed by small ones; delays 0-3 ms and idle gaps > 100 ms; " +
 		"per-request response plan: size 0/partial/65536, hold time, Content-Length/chunked/Connection: close; reader buffer sizes and pauses; front on/off; " +
 		"close mode: graceful, right after the last Write, concurrent with a Write, at start, with writer and worker blocked by back-pressure " +
-		"(reader resumes before Close / drains after Close / the application does not call Read until the Write in progress has returned and a later Write has failed)); " +
+		"(reader resumes before Close / drains after Close / the application does not call Read until the Write in progress has returned and a later Write has failed), " +
+		"while the server answers every request with data without end and Read keeps draining); " +
 		"non-trivial = a write > 65536, or >= 3 writes merged into one request body, or Close while data was in flight; fingerprint = scenario")
 	c.Assume("Go's net/http server and client transport over net.Pipe are trusted (the recording server is harness code)")
 	c.Assume("schedules are sampled by the Go scheduler and real timers; a failing schedule may not replay, the history is printed instead")
@@ -1282,6 +1378,8 @@ func vfC16Property(t *testing.T, unit string) {
 	c.Floor("poll-without-data", 0.20)
 	c.Floor("resp-max", 0.15)
 	c.Floor("front-on", 0.25)
+	c.Floor("mode-close-while-server-streams", 0.03)
+	c.Floor("close-during-download(>=20 data answers in a row, reader keeping up)/mode-close-while-server-streams", 0.5)
 	defer func() {
 		// Wait for the lingering watches; report what they found.
 		if t.Failed() {
@@ -1392,6 +1490,20 @@ func vfC16Property(t *testing.T, unit string) {
 			})
 		}
 	})
+}
+
+func vfC16Bucket(n int) string {
+	switch {
+	case n <= 2:
+		return "1-2"
+	case n <= 5:
+		return "3-5"
+	case n <= 10:
+		return "6-10"
+	case n <= 20:
+		return "11-20"
+	}
+	return ">20"
 }
 
 func vfC16FirstLine(s string) string {
